@@ -766,9 +766,35 @@ impl<'a> TransactionRebase<'a> {
                                 .push(committed_fri.clone());
                             Ok(())
                         }
-                        // If rewrite defers index remap,
-                        // then it does not conflict with index creation
-                        (None, Some(_)) => Ok(()),
+                        // If rewrite defers index remap, then it does not conflict with index
+                        // creation, unless one of its rewrite groups mixes fragments the new
+                        // index covers with fragments it does not cover: the fragment bitmap of
+                        // that index could then no longer be remapped. (The compaction plan only
+                        // avoids such groups for the indices it knew about.)
+                        (None, Some(_)) => {
+                            let splits_indexed_data = new_indices
+                                .iter()
+                                .filter_map(|index| index.fragment_bitmap.as_ref())
+                                .any(|bitmap| {
+                                    groups.iter().any(|group| {
+                                        let covered = group
+                                            .old_fragments
+                                            .iter()
+                                            .filter(|fragment| bitmap.contains(fragment.id as u32))
+                                            .count();
+                                        covered != 0 && covered != group.old_fragments.len()
+                                    })
+                                });
+                            if splits_indexed_data {
+                                Err(self.retryable_conflict_err(
+                                    other_transaction,
+                                    other_version,
+                                    location!(),
+                                ))
+                            } else {
+                                Ok(())
+                            }
+                        }
                         // Rewrite with remapping and frag_reuse_index creation can commit without conflict
                         (Some(_), None) => {
                             // this should not happen today since we don't support committing
